@@ -238,6 +238,9 @@ def make_plan(seed: int, tier: str, index: int) -> dict[str, Any]:
                                     "select": None, "slot": 1 - slot})
                 ops[pos:pos] = pair
     all_ops = [(ci, k, op) for ci, ops in enumerate(clients) for k, op in enumerate(ops)]
+    for _ci, _k, op in all_ops:
+        if op["via"] == "path" and op.get("slot") is None and p.random() < 0.06:
+            op["special_file"] = True  # a FIFO / pipe / procfs-style file: stat says size 0
     if sub == "io":
         for _ci, _k, op in all_ops:
             if op["via"] == "path" or op.get("reader") in ("textio", "codecs", "simtext"):
